@@ -143,7 +143,8 @@ def run_for_property(prop: str) -> int:
     from . import seeded as _seeded
     extra = []
     try:
-        names = [n for n in _seeded.list_seeded() if json.load(open(os.path.join(_seeded.SEEDED, n, "meta.json"))).get("property") == prop]
+        names = [n for n in _seeded.list_seeded() if json.load(open(os.path.join(_seeded.SEEDED, n, "meta.json"))).get("property") == prop
+                 and not os.path.exists(os.path.join(_seeded.SEEDED, n, "PENDING"))]     # PENDING: collected, not yet triaged
         with ProcessPoolExecutor(max_workers=16) as ex:
             for r in ex.map(_seeded.run_seed, [(n, False) for n in names]):
                 ok = r["status"] == "ran" and bool(r["fired"].get(prop))
